@@ -77,7 +77,16 @@ def handle (toks : List String) : String :=
     match parseKind? (rest.take (n - 4)), rest.drop (n - 4) with
     | some k, [b, c, d, e] =>
       match parseInsn? "0" b c d e with
-      | some f => s!"b={bytesHex (Builder.intoBytes k f)} e={bytesHex (Builder.insn k f).toArray}"
+      | some f =>
+        let e := (Builder.insn k f).toArray
+        let ea : Bytes := e.toArray
+        -- the assembler on the disassembly of the encoder's bytes; `canon=1`: the instruction is assembler-expressible
+        let a := if (Builder.insn k f).opc = 0x18 then "skip" else
+          match Disasm.toInsnVec ea with
+          | some [d] => (match Asm.assemble Drive.cc d.desc.toList with
+            | .ok bs => bytesHex bs | .err => "err" | .panic => "panic")
+          | _ => "nodis"
+        s!"b={bytesHex (Builder.intoBytes k f)} e={bytesHex e} a={a}" ++ (if decide (RtSpec.Canonical ea) then " | canon=1" else "")
       | none => "bad-op"
     | _, _ => "bad-op"
   | ["asm", t] => Drive.handleAsm t
